@@ -63,11 +63,12 @@ End O15.
    model on this input.
      1 F3  dry-run copy raises TypeError          2 F4  dry-run copytree creates the directory skeleton
      3 F16 dry run writes nested document keys    4 F5  deep not forwarded by sync_projects
-     5     exclude ignored by copytree / clone    6     dry run into an uninitialised destination job *)
+     5     exclude ignored by copytree / clone    6     dry run into an uninitialised destination job
+     8     (deep) dircmp ignores DEFAULT_IGNORES  9     (deep) un-anchored implicit exclude patterns *)
 Definition known_tag_C15 (c : case_sync) : N :=
   if negb (holds_C15 (cs_frepr c) (cs_case c))
      && holds_C15 (cs_frepr c) (model_case (cs_frepr c) cfg_fixed (c_in (cs_case c)))
-  then first_active (cs_frepr c) [1; 2; 3; 4; 5; 6]%N (c_in (cs_case c))
+  then first_active (cs_frepr c) [1; 2; 3; 4; 5; 6; 8; 9]%N (c_in (cs_case c))
   else 0%N.
 
 Definition case_C15 := case_sync.
